@@ -214,7 +214,8 @@ CHECKS['C16']['text'] += (' Four input forms incl. plain Python integers at corn
 CHECKS['C17']['text'] += (' Element lists of mixed widths; matrices 7 x 17 / 4 x 33 with the pool stand-in reporting 1 / 2 workers '
                           '(trial count above 16 x workers and not a multiple of the chunk size).')
 CHECKS['C18']['text'] += (' eval on integer parameters given as Python int, NumPy integer, integer-dtype array and float array.')
-CHECKS['C19']['text'] += (' Exponents 1, 3/2 and 2 (3/2 through a registered power atom with sqrt(2) exact).')
+CHECKS['C19']['text'] += (' Exponents 1, 3/2 and 2 (3/2 through a registered power atom with sqrt(2) exact); one isotropic '
+                          'staircase of 8 + 8 bisections for sigma = 3/2, explored with w = v^2, 1/2 <= v <= 2.')
 
 NA['C13'] = ('an eigenvalue bound on a matrix whose entries are quadratures of Ei/exp: no fragment of it is a '
              'statement an SMT solver can decide about the real code (DESIGN 3.20)')
